@@ -39,14 +39,27 @@ CONFIG = {
         "assumptions": ["text forms: the bracket content consists of number characters only (no nested brackets)"],
     },
     "C03": {
-        "level": "exploration", "proof": False, "rtc": True,
-        "explanation": "Bounded run-time contract on the real direction-grid getters against a Qhull-free arc-clipping oracle: every N in "
-                       "4..60 (quick) / 4..200 (thorough) for ico, cube3D, randomS, every pair and cell.",
-        "assumptions": ["nothing is claimed for N beyond the bound"],
+        "level": "other", "proof": True, "rtc": True,
+        "explanation": "Proved (symbolic number of cells, arbitrary regions, all three properties, dim 3 and 4) for the real "
+                       "AbstractVoronoi._calculate_N_N_array: the stored positions are exactly the ordered pairs (i,j),(j,i) with i<j "
+                       "sharing at least dim-1 vertex ids, in itertools.combinations order and identical for adjacency, borders and "
+                       "distances (one common pattern and entry order); positions pairwise distinct (no summing); dense view M[a][b] = "
+                       "val(min,max) if adjacent else 0, hence symmetric with empty diagonal (78 obligations; the filter-extend loop with "
+                       "temporaries and a property switch is summarised by the engine). "
+                       "Bounded (the geometric claims): real direction-grid getters against a Qhull-free arc-clipping oracle: every N in "
+                       "4..60 (quick) / 4..200 (thorough) for ico, cube3D, randomS, every pair and cell (adjacent <=> shared arc of positive "
+                       "length, border = arc length, distance = angle, area, positivity, sum 4 pi).",
+        "trusted_base": [NUMPY, "itertools.combinations(range(n), 2) contract (pairs i<j in lexicographic order, unranking/ranking functions)",
+                         "scipy coo_array((data,(row,col))) = sum over stored triplets (lookup ghost, injectivity proved)",
+                         "STUBS: regions as abstract collections (number of shared vertex ids is an uninterpreted function of the pair); "
+                         "_calculate_borders / _calculate_center_distances as uninterpreted functions of the ordered pair"],
+        "assumptions": ["that sharing dim-1 vertex ids means sharing an arc of positive length, and every value Qhull / the border and distance "
+                        "routines return, is bounded only; nothing geometric is claimed for N beyond the bound"],
     },
     "C04": {
         "level": "other", "proof": True, "rtc": True,
-        "explanation": "Proved (symbolic N, intermediate assertions on the real HalfRotobjVoronoi._calculate_N_N_array, three loop "
+        "explanation": "Proved: the full-sphere matrix builder AbstractVoronoi._calculate_N_N_array (pattern, order, entry formula, symmetry, "
+                       "empty diagonal; see C03) and (symbolic N, intermediate assertions on the real HalfRotobjVoronoi._calculate_N_N_array, three loop "
                        "invariants): (p1) the antipode map built by the first loop is total, map[d] = d +- N for every d < 2N (this is "
                        "the obligation finding F1 violated: `if opp_ind:` on array([0])); (p2) after the in-place fold every entry is "
                        "a[i][c] = a[i][opp c] = A(i,lo) if non-zero else A(i,hi) for the pair {c, opp c}; lemmas: the folded upper block "
@@ -61,7 +74,9 @@ CONFIG = {
     },
     "C06": {
         "level": "other", "proof": True, "rtc": True,
-        "explanation": "Proved (small core, symbolic sizes): PositionGrid.get_cartesian_distances returns the adjacency's own stored "
+        "explanation": "Proved (symbolic sizes): the matrix builder PositionVoronoi inherits, AbstractVoronoi._calculate_N_N_array (one common "
+                       "pattern and order for the three properties, distinct positions, entry formula, symmetry, empty diagonal; see C03); "
+                       "PositionGrid.get_cartesian_distances returns the adjacency's own stored "
                        "pattern and entry order with data[k] = Euclidean distance of the two grid points (loop summarised by the "
                        "engine, index bounds proved for every stored entry). Bounded (the actual claim): volumes and border areas "
                        "against an own half-space clipping oracle (no Qhull), every N in 4..42 (quick) / 4..100 (thorough), three "
@@ -265,11 +280,23 @@ CONFIG["C08"] = {
                     "index permanence, cache coherence and the idempotent filter (DESIGN 6/C08 P2-P4) are covered by the bounded stage only"],
 }
 CONFIG["C18"] = {
-    "level": "exploration", "proof": False, "rtc": True, "rtc_timeout": 3000,
-    "explanation": "Bounded run-time contract, exhaustive over the stated levels (ico/cube3D 0..3 quick, 4 thorough; hypercube 0..2): node "
+    "level": "other", "proof": True, "rtc": True, "rtc_timeout": 3000,
+    "explanation": "Proved on the real code over an abstract graph (symbolic number of nodes, any shuffle permutation): "
+                   "Polytope._end_of_divison keeps the index of every node of an earlier level (permanence) and gives the nodes of the "
+                   "current level exactly the indices C..C+K-1, each once (range, injective, onto with witness), advances counter / level "
+                   "/ side length; Polytope._add_polytope_point adds one node keyed by the point with level = current level and "
+                   "projection = normalise_vectors(point), assigns no index, touches no existing node; lemma (history induction step): "
+                   "indices stay 0..C-1 each once, earlier levels below later ones, old indices never move. "
+                   "Cube4DPolytope.get_half_of_hypercube (both variants): the returned rows are exactly the nodes whose first non-zero "
+                   "projected coordinate is positive, in strictly increasing index order, and that is exactly one of every antipodal pair "
+                   "(uses the proved contract of utils.q_in_upper_sphere as call-site summary). "
+                   "Bounded (the geometric claims), exhaustive over the stated levels (ico/cube3D 0..3 quick, 4 thorough; hypercube 0..2): node "
                    "set = independently generated ideal lattice (bijection within 1e-9), negation closure, projections, permanent indices "
                    "0..n-1 ordered by level and unchanged by later subdivisions and by interleaved histories, half-hypercube selection.",
-    "assumptions": [],
+    "trusted_base": [NUMPY, "pyvc/lib_nx.py: networkx node view / attribute dict / add_node of a fresh key, np.random.shuffle = in-place permutation",
+                     "ASSUMED (geometric, bounded stage): a new midpoint key is not yet a node; node rows are pairwise not isclose, closed under exact "
+                     "negation, coordinates exactly 0 or |x| > 1e-8; Polytope.get_nodes returns all nodes sorted by index (stub)"],
+    "assumptions": ["set equality with the ideal lattice, negation closure and freshness of float-keyed midpoints are bounded only (levels stated above)"],
 }
 
 NOT_APPLICABLE = {}
